@@ -874,6 +874,12 @@ fn initial_files(c: &Case) -> Vec<(Vec<u8>, Vec<u8>)> {
     v
 }
 
+/// Delivery of the case's standard input: a function of the case alone (a replay delivers it the same way);
+/// about one case in four gets it in two writes with a pause between them.
+fn stdin_in_two_writes(c: &Case) -> bool {
+    c.stdin.len() >= 2 && (c.stdin.len() + c.argv.iter().map(|a| a.len()).sum::<usize>()) % 4 == 0
+}
+
 fn run_case(bin: &Path, dir: &Path, c: &Case) -> Outcome {
     let _ = std::fs::remove_dir_all(dir);
     std::fs::create_dir_all(dir.join("xdg")).expect("scratch dir");
@@ -906,7 +912,17 @@ fn run_case(bin: &Path, dir: &Path, c: &Case) -> Outcome {
         Err(e) => o.spawn_error = Some(e.to_string()),
         Ok(mut child) => {
             if let Some(mut si) = child.stdin.take() {
-                let _ = si.write_all(&c.stdin);
+                if stdin_in_two_writes(c) {
+                    // a pipe hands the reader what has been written so far: a reader that takes a short read
+                    // for the end of its input shows only when the input arrives in pieces
+                    let cut = c.stdin.len() / 2;
+                    let _ = si.write_all(&c.stdin[..cut]);
+                    let _ = si.flush();
+                    std::thread::sleep(std::time::Duration::from_millis(120));
+                    let _ = si.write_all(&c.stdin[cut..]);
+                } else {
+                    let _ = si.write_all(&c.stdin);
+                }
             }
             match child.wait_with_output() {
                 Ok(out) => {
@@ -1190,6 +1206,8 @@ pub fn build_binary() -> Result<PathBuf, String> {
         .env("CARGO_PROFILE_DEV_OVERFLOW_CHECKS", "false")
         .env_remove("RUSTFLAGS")
         .env_remove("CARGO_ENCODED_RUSTFLAGS")
+        // cargo's rustc probe (`rustc - --print ...`) reads standard input: never let it see the caller's
+        .stdin(Stdio::null())
         .output()
         .map_err(|e| format!("cannot run cargo: {}", e))?;
     if !out.status.success() {
@@ -1478,6 +1496,9 @@ fn flush(m: &Model, bin: &Path, root: &Path, cases: Vec<Case>, rep: &mut Report)
     let mut bt = Batch::new();
     for (c, o) in cases.iter().zip(outs.iter()) {
         rep.count(&format!("exit-{}", o.code.map(|n| n.to_string()).unwrap_or("signal".into())));
+        if stdin_in_two_writes(c) {
+            rep.count("stdin-delivered-in-two-writes");
+        }
         bt.push(model_request(c, &o.dflt), move |resp, rep| judge(c, o, resp, rep));
     }
     bt.run(m, rep);
@@ -1486,7 +1507,7 @@ fn flush(m: &Model, bin: &Path, root: &Path, cases: Vec<Case>, rep: &mut Report)
 pub fn run(cfg: &Cfg, rep: &mut Report) {
     let m = Model::from_env();
     let mut rng = Rng::new(cfg.seed ^ 0xC16);
-    rep.rule = "the binary is rebuilt from /repo's working tree and run in a fresh directory per case. Flag sets: every single flag/extension/valued option (39), every pair (741), random subsets of 3..39; each crossed with html/xml/commonmark and with input {stdin, one file, 2-4 files cut at arbitrary byte offsets}, sink {stdout, --output (fresh or pre-existing longer file), --inplace}, config {--config-file none, missing file, XDG default missing, file carrying part of the set, file carrying all of it, file at the XDG default path, empty file} (quoted in 5 shell styles), highlighter {none, default theme, empty theme, explicit theme}; the last four dimensions are cycled for singles/pairs and fully crossed on fixed flag sets. Documents: one rich document on which every option is observable, its rotations, palette/grammar documents. distinct_nontrivial counts distinct (flag set, format, input, sink, config, highlighter) classes".into();
+    rep.rule = "the binary is rebuilt from /repo's working tree and run in a fresh directory per case. Flag sets: every single flag/extension/valued option (39), every pair (741), random subsets of 3..39; each crossed with html/xml/commonmark and with input {stdin (one case in four delivered in two writes with a pause), one file, 2-4 files cut at arbitrary byte offsets}, sink {stdout, --output (fresh or pre-existing longer file), --inplace}, config {--config-file none, missing file, XDG default missing, file carrying part of the set, file carrying all of it, file at the XDG default path, empty file} (quoted in 5 shell styles), highlighter {none, default theme, empty theme, explicit theme}; the last four dimensions are cycled for singles/pairs and fully crossed on fixed flag sets. Documents: one rich document on which every option is observable, its rotations, palette/grammar documents. distinct_nontrivial counts distinct (flag set, format, input, sink, config, highlighter) classes".into();
     let t0 = std::time::Instant::now();
     let bin = match build_binary() {
         Ok(p) => p,
